@@ -75,6 +75,14 @@ impl Drop for Node {
             let s = s.borrow();
             (s.ondrop.get(&self.id).cloned().unwrap_or_default(), s.ondrop_panic.contains(&self.id))
         });
+        DTORS.with(|d| d.borrow_mut().push(self as *const Node));
+        struct Pop;
+        impl Drop for Pop {
+            fn drop(&mut self) {
+                DTORS.with(|d| { d.borrow_mut().pop(); });
+            }
+        }
+        let _pop = Pop;
         for op in &ops {
             run_op(op, true);
         }
@@ -113,6 +121,7 @@ struct State {
 }
 
 thread_local! {
+    static DTORS: RefCell<Vec<*const Node>> = RefCell::new(Vec::new());
     static ST: RefCell<State> = RefCell::new(State { next_pid: 1000, ..Default::default() });
     static OUT: RefCell<Vec<String>> = RefCell::new(Vec::new());
 }
@@ -133,7 +142,17 @@ fn put(name: &str, h: H) {
     });
 }
 
+fn cur_node() -> *const Node {
+    DTORS.with(|d| *d.borrow().last().expect("SCRIPT: slot reference outside a destructor"))
+}
+
 fn with_rc<R>(name: &str, f: impl FnOnce(&Rc<Node>) -> R) -> R {
+    if let Some(k) = name.strip_prefix('@') {
+        // k-th strong slot of the value whose destructor is running
+        let n = unsafe { &*cur_node() };
+        let p: *const Rc<Node> = &n.strong.borrow()[num(k)] as *const Rc<Node>;
+        return f(unsafe { &*p });
+    }
     // The handle stays in the table while `f` runs (re-entrant ops from destructors may look it up),
     // so hand out a raw pointer to it.
     let p: *const Rc<Node> = ST.with(|s| match s.borrow().handles.get(name) {
@@ -153,6 +172,11 @@ fn with_rc_mut<R>(name: &str, f: impl FnOnce(&mut Rc<Node>) -> R) -> R {
 }
 
 fn with_weak<R>(name: &str, f: impl FnOnce(&Weak<Node>) -> R) -> R {
+    if let Some(k) = name.strip_prefix('^') {
+        let n = unsafe { &*cur_node() };
+        let p: *const Weak<Node> = &n.weak.borrow()[num(k)] as *const Weak<Node>;
+        return f(unsafe { &*p });
+    }
     let p: *const Weak<Node> = ST.with(|s| match s.borrow().handles.get(name) {
         Some(H::Weak(r)) => r as *const Weak<Node>,
         _ => panic!("SCRIPT: {} is not a weak handle", name),
@@ -224,6 +248,12 @@ fn run_op(op: &Op, _in_dtor: bool) {
                     let h = take(a[1]);
                     drop(h_rc(h));
                 }
+                "drop_if" => {
+                    let h = ST.with(|s| s.borrow_mut().handles.remove(a[1]));
+                    if let Some(h) = h {
+                        drop(h_rc(h));
+                    }
+                }
                 "extras" => {
                     let n = num(a[2]);
                     for _ in 0..n {
@@ -247,6 +277,11 @@ fn run_op(op: &Op, _in_dtor: bool) {
                     let id = num(a[1]);
                     let r = ST.with(|s| s.borrow_mut().wextras.get_mut(&id).and_then(|v| v.pop())).expect("SCRIPT: no wextra");
                     drop(r);
+                }
+                "drop_all_wextras" => {
+                    let id = num(a[1]);
+                    let v = ST.with(|s| s.borrow_mut().wextras.remove(&id)).unwrap_or_default();
+                    drop(v);
                 }
                 "store" => {
                     let h = h_rc(take(a[2]));
@@ -449,6 +484,7 @@ fn run_script(name: String, ops: Vec<Op>, seed: u64) {
         // dropped by this too, so the leak figure is only meaningful when handles=0 and extras=0
         let leak_note = if st_handles == 0 && extras == 0 {
             ST.with(|s| { let old = std::mem::take(&mut *s.borrow_mut()); drop(old); });
+            DTORS.with(|d| *d.borrow_mut() = Vec::new());
             let own = lines.len() as isize + if lines.capacity() > 0 { 1 } else { 0 };
             format!("end handles=0 leaked_blocks={} allocs={}", LIVE_BLOCKS.load(Ordering::Relaxed) - b0 - own, ALLOCS.load(Ordering::Relaxed) - a0)
         } else {
